@@ -44,7 +44,17 @@ FIXED = [
     (["a", "c"], [(1, 2), (None, 3), (None, None), (None, None)]),
     (["c", "b", "a"], [(7, 2, 1), (7, 2, 1), (None, 3, None), (None, None, None)]),
     (["a", "b", "c"], [(1, 2, 7), (None, None, None), (None, None, None), (None, 3, None)]),
+    # unionByName(allowMissingColumns): several columns missing on either side, right order not alphabetical
+    (["k", "v"], [(1, 10), (1, 10), (None, None)]),
+    (["v", "z", "k", "c"], [(100, 7, 2, 9), (None, None, None, None), (100, 7, 2, 9)]),
+    (["z", "a", "y", "b"], [(7, 1, 8, 2), (7, 1, 8, 2), (None, None, None, 3), (None, None, None, None)]),
+    # spelling: the result carries the LEFT operand's names exactly as the left spells them
+    (["Id", "Amount"], [(1, 10), (1, 10), (2, 20), (None, None), (None, None)]),
+    (["id", "AMOUNT"], [(1, 10), (1, 10), (3, 30), (None, None)]),
+    (["Amount", "Id"], [(10, 1), (None, None), (30, 3)]),
+    (["AMOUNT", "id"], [(10, 1), (10, 1), (None, None), (30, 3)]),
 ]
+T_KV, T_VZKC, T_ZAYB, T_ID, T_IDR, T_AMT, T_AMTR = 9, 10, 11, 12, 13, 14, 15
 
 
 def _tup(x):
@@ -97,15 +107,17 @@ def valid(t, tables):
         for st in t[1]:
             if st[0] == "select":
                 out = [n for _, n in st[1]]
-                if len(set(out)) != len(out) or any(not rel.e_cols(e) <= set(ns) for e, _ in st[1]):
+                if len(set(o.lower() for o in out)) != len(out) or any(not rel.e_cols(e_plain(e)) <= set(ns) for e, _ in st[1]):
                     return False
                 ns = out
-            elif st[0] == "where" and not rel.e_cols(st[1]) <= set(ns):
+            elif st[0] == "where" and not rel.e_cols(e_plain(st[1])) <= set(ns):
                 return False
         return True
     if not (valid(t[2], tables) and valid(t[3], tables)):
         return False
     ln, rn = names_of(t[2], tables), names_of(t[3], tables)
+    if t[1] in ("unionByName", "unionByNameAllow") and any(a.lower() == b.lower() and a != b for a in ln for b in rn):
+        return False      # names differing only in letter case: curated cases only (Case.spec_tables)
     if t[1] == "unionByNameAllow":
         return True
     if t[1] == "unionByName":
@@ -154,7 +166,43 @@ def shares_setop(t):
     return bool(setop_subtrees(t[2]) & setop_subtrees(t[3])) or shares_setop(t[2]) or shares_setop(t[3])
 
 
+def e_plain(e):
+    """('lcol', n) = column n addressed as left_df[n] (left_df = the left operand object of the set operation the step
+    follows); it means the same column, so the Coq side sees ('col', n)"""
+    if not isinstance(e, tuple):
+        return e
+    if e[0] == "lcol":
+        return ("col", e[1])
+    return tuple(e_plain(x) for x in e)
+
+
+def e_marked(e):
+    if not isinstance(e, tuple):
+        return e
+    if e[0] == "lcol":
+        return ("col", "@L:" + e[1])
+    return tuple(e_marked(x) for x in e)
+
+
+def has_lcol(e):
+    return isinstance(e, tuple) and (e[0] == "lcol" or any(has_lcol(x) for x in e))
+
+
+class FLeft:
+    """functions module whose col() resolves marked names through the left operand's DataFrame object"""
+
+    def __init__(self, F, left):
+        self._F, self._left = F, left
+
+    def col(self, name):
+        return self._left[name[3:]] if name.startswith("@L:") else self._F.col(name)
+
+    def __getattr__(self, k):
+        return getattr(self._F, k)
+
+
 def step_coq(st):
+    st = e_plain(st)
     if st[0] == "where":
         return f"(OWhere {rel.e_coq(st[1])})"
     if st[0] == "select":
@@ -176,7 +224,15 @@ def tree_coq(t):
     return f"(TSet {CALL_COQ[t[1]]} {tree_coq(t[2])} {tree_coq(t[3])})"
 
 
+def e_str_l(e):
+    return rel.e_str(e_marked(e)).replace("@L:", "LEFT.")
+
+
 def step_str(st):
+    if has_lcol(st):
+        if st[0] == "where":
+            return f"where({e_str_l(st[1])})"
+        return "select(" + ", ".join(f"{e_str_l(e)} as {n}" for e, n in st[1]) + ")"
     if st[0] == "where":
         return f"where({rel.e_str(st[1])})"
     if st[0] == "select":
@@ -198,7 +254,12 @@ def tree_str(t):
     return f"{tree_str(t[2])}.{t[1]}({tree_str(t[3])})"
 
 
-def apply_step(df, st, F):
+def apply_step(df, st, F, left=None):
+    if has_lcol(st):
+        FL = FLeft(F, left)
+        if st[0] == "where":
+            return df.where(rel.e_sf(e_marked(st[1]), FL))
+        return df.select(*[left[e[1]] if e == ("lcol", n) else rel.e_sf(e_marked(e), FL).alias(n) for e, n in st[1]])
     if st[0] == "where":
         return df.where(rel.e_sf(st[1], F))
     if st[0] == "select":
@@ -215,25 +276,31 @@ def apply_step(df, st, F):
 def build(t, dfs, F, memo=None):
     """the DataFrame program of a tree.  memo=None: every occurrence of a subtree is built by its own calls;
     memo={}: equal subtrees are one Python object (df = ...; df.op(df))."""
+    return build2(t, dfs, F, memo)[0]
+
+
+def build2(t, dfs, F, memo=None):
+    """-> (DataFrame, the DataFrame object steps may address columns through: the left operand of a set operation)"""
     if memo is not None and t in memo:
         return memo[t]
     if t[0] == "in":
-        d = dfs[t[1]]
+        d = left = dfs[t[1]]
     elif t[0] == "ops":
-        d = build(t[2], dfs, F, memo)
+        d, left = build2(t[2], dfs, F, memo)
         for st in t[1]:
-            d = apply_step(d, st, F)
+            d = apply_step(d, st, F, left)
     else:
-        l, r = build(t[2], dfs, F, memo), build(t[3], dfs, F, memo)
+        (l, _), (r, _) = build2(t[2], dfs, F, memo), build2(t[3], dfs, F, memo)
         if t[1] == "unionByName":
             d = l.unionByName(r)
         elif t[1] == "unionByNameAllow":
             d = l.unionByName(r, allowMissingColumns=True)
         else:
             d = getattr(l, t[1])(r)
+        left = l
     if memo is not None:
-        memo[t] = d
-    return d
+        memo[t] = (d, left)
+    return d, left
 
 
 def schema_of(names):
@@ -341,8 +408,21 @@ def export_query(expression, exp, values_alias):
 
 # ---- cases ------------------------------------------------------------------------------------------------------
 
+def _lower_names(tables, tree):
+    if any(c != c.lower() for cols, _ in tables for c in cols):
+        return False
+
+    def ok(t):
+        if t[0] == "in":
+            return True
+        if t[0] == "ops":
+            return ok(t[2]) and all(n == n.lower() for st in t[1] if st[0] == "select" for _, n in st[1])
+        return ok(t[2]) and ok(t[3])
+    return ok(tree)
+
+
 class Case:
-    def __init__(self, tables, tree, post="none", share=False, origin=""):
+    def __init__(self, tables, tree, post="none", share=False, origin="", respell=None):
         used = sorted(inputs_used(tree))
         m = {old: new for new, old in enumerate(used)}
         self.tables = [(list(tables[i][0]), [tuple(r) for r in tables[i][1]]) for i in used]
@@ -350,6 +430,14 @@ class Case:
         self.post = post
         self.share = share
         self.origin = origin
+        # respell = {input index: names}: what the Spark spec is evaluated on when an operand spells a column with
+        # another letter case than the left operand (Spark matches case-insensitively and keeps the left spelling)
+        self.spec_cols = {m[i]: list(ns) for i, ns in (respell or {}).items() if i in m}
+        # SQL identifiers are lower-cased by sqlframe; T2 compares names exactly, so it is applied to lower-case cases
+        self.t2 = _lower_names(self.tables, self.tree)
+
+    def spec_tables(self):
+        return [(self.spec_cols.get(i, cols), rows) for i, (cols, rows) in enumerate(self.tables)]
 
     def key(self):
         return repr((self.tables, self.tree, self.post, self.share))
@@ -359,17 +447,19 @@ class Case:
 
     def to_json(self):
         return {"program": self.text(), "tables": [{"cols": c, "rows": [list(r) for r in rs]} for c, rs in self.tables],
-                "tree": self.tree, "post": self.post, "share": self.share}
+                "tree": self.tree, "post": self.post, "share": self.share,
+                "spec_cols": {str(i): ns for i, ns in self.spec_cols.items()}}
 
     @staticmethod
     def from_json(j):
         tabs = [(t["cols"], [tuple(r) for r in t["rows"]]) for t in j["tables"]]
-        c = Case(tabs, _tup(j["tree"]), j.get("post", "none"), j.get("share", False))
+        c = Case(tabs, _tup(j["tree"]), j.get("post", "none"), j.get("share", False),
+                 respell={int(i): ns for i, ns in (j.get("spec_cols") or {}).items()})
         return c
 
 
 def coq_case(case: Case, exported, impl):
-    ins = listlit([rel.frame_coq(c, rs) for c, rs in case.tables])
+    ins = listlit([rel.frame_coq(c, rs) for c, rs in case.spec_tables()])
     post = "PGroupCount" if case.post == "groupcount" else "PNone"
     return f"(mkSCase {ins} {tree_coq(case.tree)} {post} {exported} {impl})"
 
@@ -401,7 +491,7 @@ def _run_impl_once(case: Case, session, F, exp):
             dfs.append(d)
             aliases[d.expression.args["from"].this.alias] = i
         d = build(case.tree, dfs, F, {} if case.share else None)
-        if not case.share:
+        if not case.share and case.t2:
             try:
                 exported = "(Some " + export_query(d.expression, exp, aliases) + ")"
             except rel.NotExportable as ne:
@@ -619,6 +709,46 @@ def make_cases(ctx, rnd):
                 cases.append(Case(tabs, ("set", call, ("in", j), top2), origin="ordered-operand"))
                 cases.append(Case(tabs, ("set", call, ("ops", (("orderBy", (("b", True), ("a", False))),), ("in", i)), ("in", j)),
                                   origin="ordered-operand"))
+    # unionByName(allowMissingColumns=True): several columns missing on the left (right order not alphabetical) / on the right
+    for i, j in ((T_KV, T_VZKC), (T_VZKC, T_KV), (1, T_ZAYB), (T_ZAYB, 2), (6, T_VZKC), (T_ZAYB, T_VZKC), (8, T_ZAYB)):
+        t = ("set", "unionByNameAllow", ("in", i), ("in", j))
+        n0 = names_of(t, tabs)
+        cases.append(Case(tabs, t, origin="byname-missing"))
+        cases.append(Case(tabs, t, post="groupcount", origin="byname-missing"))
+        cases.append(Case(tabs, ("ops", (("select", tuple((("col", c), c) for c in n0[-2:])), ("distinct",)), t), origin="byname-missing"))
+        if len(n0) == 4:      # the result is used positionally by the next operation
+            cases.append(Case(tabs, ("set", "exceptAll", t, ("in", T_VZKC)), origin="byname-missing"))
+            cases.append(Case(tabs, ("ops", (("where", ("not", ("isnull", ("col", n0[2])))),),
+                                     ("set", "union", ("in", T_ZAYB), t)), origin="byname-missing"))
+    # spelling: names come from the LEFT operand exactly as the left spells them (df.columns compared exactly)
+    for call in POSITIONAL:
+        for l, r in ((T_ID, T_IDR), (T_IDR, T_ID), (T_ID, 1)):
+            t = ("set", call, ("in", l), ("in", r))
+            n0 = names_of(t, tabs)
+            cases.append(Case(tabs, t, origin="spelling"))
+            if call in ("union", "exceptAll") or not quick:
+                cases.append(Case(tabs, t, post="groupcount", origin="spelling"))
+                cases.append(Case(tabs, ("ops", (("where", ("bin", "Ge", ("col", n0[0]), ("lit", 2))),), t), origin="spelling"))
+    for call in ("unionByName", "unionByNameAllow"):
+        cases.append(Case(tabs, ("set", call, ("in", T_ID), ("in", T_AMT)), origin="spelling"))
+        cases.append(Case(tabs, ("set", call, ("in", T_ID), ("in", T_AMTR)), origin="spelling", respell={T_AMTR: ["Amount", "Id"]}))
+        cases.append(Case(tabs, ("set", call, ("in", T_IDR), ("in", T_AMT)), origin="spelling", respell={T_AMT: ["AMOUNT", "id"]}))
+    cases.append(Case(tabs, ("set", "unionByNameAllow", ("in", T_ID), ("in", 1)), origin="spelling"))
+    cases.append(Case(tabs, ("set", "unionByNameAllow", ("in", 1), ("in", T_ID)), origin="spelling"))
+    # follow-up steps that address a column through the left operand's DataFrame object (left_df["col"]) and by name
+    for call in CALLS:
+        byn = call.startswith("unionByName")
+        for l, r in ((("in", 1), ("in", 5 if byn else 2)),
+                     (("ops", (("where", ("not", ("isnull", ("col", "b")))),), ("in", 3)), ("in", 5 if byn else 1)),
+                     (("in", T_ID), ("in", T_AMT if byn else T_IDR))):
+            t = ("set", call, l, r)
+            a, b = names_of(l, tabs)[:2]
+            cases.append(Case(tabs, ("ops", (("where", ("bin", "Ge", ("lcol", a), ("lit", 1))),), t), origin="left-ref"))
+            if call in ("union", "intersectAll", "unionByName") or not quick:
+                cases.append(Case(tabs, ("ops", (("where", ("bin", "Or", ("isnull", ("lcol", a)), ("bin", "Gt", ("col", b), ("lit", 2)))),
+                                                 ("distinct",)), t), origin="left-ref"))
+                cases.append(Case(tabs, ("ops", (("select", ((("lcol", b), b), (("bin", "Add", ("lcol", a), ("col", b)), "s"))),), t),
+                                  origin="left-ref"))
     # every ordered pair of methods nested left / right (depth 2) on fixed operands
     k_nest = 0
     for c1 in POSITIONAL:
@@ -671,18 +801,19 @@ def shrink_candidates(case: Case):
                 yield ("set", t[1], t[2], s)
 
     for s in subtrees(case.tree):
-        if s[0] != "in" and calls_in(s) and valid(s, tabs):
-            out.append(Case(tabs, s, case.post, case.share))
+        if s[0] != "in" and calls_in(s) and (valid(s, tabs) or case.spec_cols):
+            out.append(Case(tabs, s, case.post, case.share, respell=case.spec_cols))
     if case.post != "none":
-        out.append(Case(tabs, case.tree, "none", case.share))
+        out.append(Case(tabs, case.tree, "none", case.share, respell=case.spec_cols))
     if case.share:
-        out.append(Case(tabs, case.tree, case.post, False))
+        out.append(Case(tabs, case.tree, case.post, False, respell=case.spec_cols))
     for ti, (cols, rows) in enumerate(tabs):
         for ri in range(len(rows)):
             nt = [(c, list(r)) for c, r in tabs]
             nt[ti] = (cols, rows[:ri] + rows[ri + 1:])
             c2 = Case.__new__(Case)
             c2.tables, c2.tree, c2.post, c2.share, c2.origin = nt, case.tree, case.post, case.share, "shrunk"
+            c2.spec_cols, c2.t2 = case.spec_cols, case.t2
             out.append(c2)
     return out
 
@@ -806,7 +937,7 @@ def run(ctx: core.Ctx):
             model_fail.append(d)
         elif not t2 and info["exported"]:
             t2_fail.append(d)
-        elif not info["exported"] and not c.share and info.get("export_note"):
+        elif not info["exported"] and not c.share and c.t2 and info.get("export_note"):
             t2_fail.append(d)
         if proved and dom and not mraise and not ms and not any(b["name"] == "theorem-vs-evaluation" for b in ctx.brokens):
             ctx.broken("theorem-vs-evaluation", "in-domain case where the model's SQL and the Spark spec evaluate differently", data=[d])
